@@ -306,14 +306,14 @@ def check(run):
                 "result and parse_params flushes before returning; (R08c) with declared yield/send/return types the raw "
                 "item / sent value / return value cannot reach the yield / send / return (reaching definitions avoiding "
                 "the 'no type declared' branch); (R08d) the value returned by send()/asend() is used.")
-    r08a(run)
-    c04.r04e(run, rule="R08b")
-    r08c(run)
-    r08d(run)
-    r08e(run)
-    r08f(run)
+    run.rule(r08a, run)
+    run.rule(c04.r04e, run, rule="R08b")
+    run.rule(r08c, run)
+    run.rule(r08d, run)
+    run.rule(r08e, run)
+    run.rule(r08f, run)
     from . import c06
     _pd, _A, _B = c06.siblings(run)
-    c06.r06i(run, _A, _B)
+    run.rule(c06.r06i, run, _A, _B)
     from . import c10
-    c10.r10e(run, [g for g in run.repo.module('utype.parser.func').functions.values()], rule="R10e", floor=6)
+    run.rule(c10.r10e, run, [g for g in run.repo.module('utype.parser.func').functions.values()], rule="R10e", floor=6)
